@@ -35,8 +35,7 @@ const (
 
 // subject is one signed object as a validator client would produce it.
 type subject struct {
-	dom      signing.DomainName // domain a validator client signs this type with
-	epoch    eth2p0.Epoch       // epoch whose fork version goes into the domain
+	times    map[string]eth2p0.Epoch // the object's time fields by name: "slot" (its epoch), "target", "epoch", "genesis"
 	root     func() ([32]byte, error)
 	setSig   func(eth2p0.BLSSignature)
 	getSig   func() eth2p0.BLSSignature
@@ -59,7 +58,7 @@ func unknownField(kind, f string) error { return fmt.Errorf("kind %s has no fiel
 
 // groupSig signs root with the validator's group key (or, for the innerProof alteration, with one of its shares).
 func (w *world) groupSig(k *valKeys, bad bool, own int, dom signing.DomainName, root [32]byte) (eth2p0.BLSSignature, error) {
-	data, err := signing.GetDataRoot(w.ctx, w.bmock, dom, nowEpoch, root)
+	data, err := signing.GetDataRoot(w.ctx, w.bmock, dom, w.slotEpoch(), root)
 	if err != nil {
 		return eth2p0.BLSSignature{}, err
 	}
@@ -76,9 +75,9 @@ func (w *world) attData(electraStyle bool) *eth2p0.AttestationData {
 	if electraStyle {
 		idx = 0
 	}
-	return &eth2p0.AttestationData{Slot: w.slot, Index: idx, BeaconBlockRoot: testutil.RandomRoot(),
-		Source: &eth2p0.Checkpoint{Epoch: nowEpoch - 1, Root: testutil.RandomRoot()},
-		Target: &eth2p0.Checkpoint{Epoch: nowEpoch, Root: testutil.RandomRoot()}}
+	return &eth2p0.AttestationData{Slot: w.lay.slot, Index: idx, BeaconBlockRoot: testutil.RandomRoot(),
+		Source: &eth2p0.Checkpoint{Epoch: w.lay.tgt - 1, Root: testutil.RandomRoot()},
+		Target: &eth2p0.Checkpoint{Epoch: w.lay.tgt, Root: testutil.RandomRoot()}}
 }
 
 func (w *world) newSubject(kind, ver string, claimed *valKeys, vidx eth2p0.ValidatorIndex, badInner bool, own int) (*subject, error) {
@@ -88,9 +87,9 @@ func (w *world) newSubject(kind, ver string, claimed *valKeys, vidx eth2p0.Valid
 	case "proposal", "blinded":
 		return w.newSignedProposal(kind, ver, vidx)
 	case "randao":
-		slot, ep := w.slot, eth2p0.Epoch(nowEpoch)
+		slot, ep := w.lay.slot, w.slotEpoch()
 		var sig eth2p0.BLSSignature
-		s := &subject{dom: signing.DomainRandao, epoch: nowEpoch}
+		s := &subject{times: map[string]eth2p0.Epoch{"epoch": ep}}
 		s.root = func() ([32]byte, error) { return eth2util.SignedEpoch{Epoch: ep}.HashTreeRoot() }
 		s.setSig = func(x eth2p0.BLSSignature) { sig = x; s.vc = &eth2api.ProposalOpts{Slot: slot, RandaoReveal: sig} }
 		s.getSig = func() eth2p0.BLSSignature { return sig }
@@ -106,8 +105,8 @@ func (w *world) newSubject(kind, ver string, claimed *valKeys, vidx eth2p0.Valid
 		s.parsig = func(idx int) (core.ParSignedData, error) { return core.NewPartialSignedRandao(ep, sig, idx), nil }
 		return s, nil
 	case "exit":
-		ex := &eth2p0.SignedVoluntaryExit{Message: &eth2p0.VoluntaryExit{Epoch: nowEpoch, ValidatorIndex: vidx}}
-		s := &subject{dom: signing.DomainExit, epoch: nowEpoch, vc: ex}
+		ex := &eth2p0.SignedVoluntaryExit{Message: &eth2p0.VoluntaryExit{Epoch: w.slotEpoch(), ValidatorIndex: vidx}}
+		s := &subject{times: map[string]eth2p0.Epoch{"epoch": ex.Message.Epoch}, vc: ex}
 		s.root = ex.Message.HashTreeRoot
 		s.setSig = func(x eth2p0.BLSSignature) { ex.Signature = x }
 		s.getSig = func() eth2p0.BLSSignature { return ex.Signature }
@@ -127,7 +126,7 @@ func (w *world) newSubject(kind, ver string, claimed *valKeys, vidx eth2p0.Valid
 	case "registration":
 		reg := &eth2api.VersionedSignedValidatorRegistration{Version: eth2spec.BuilderVersionV1, V1: testutil.RandomSignedValidatorRegistration(w.t)}
 		reg.V1.Message.Pubkey = claimed.eth2PK
-		s := &subject{dom: signing.DomainApplicationBuilder, epoch: 0, vc: reg}
+		s := &subject{times: map[string]eth2p0.Epoch{"genesis": 0}, vc: reg}
 		s.root = reg.V1.Message.HashTreeRoot
 		s.setSig = func(x eth2p0.BLSSignature) { reg.V1.Signature = x }
 		s.getSig = func() eth2p0.BLSSignature { return reg.V1.Signature }
@@ -151,8 +150,8 @@ func (w *world) newSubject(kind, ver string, claimed *valKeys, vidx eth2p0.Valid
 		}
 		return s, nil
 	case "bcselection":
-		sel := &eth2v1.BeaconCommitteeSelection{ValidatorIndex: vidx, Slot: w.slot}
-		s := &subject{dom: signing.DomainSelectionProof, epoch: nowEpoch, vc: sel}
+		sel := &eth2v1.BeaconCommitteeSelection{ValidatorIndex: vidx, Slot: w.lay.slot}
+		s := &subject{times: map[string]eth2p0.Epoch{"slot": w.slotEpoch()}, vc: sel}
 		s.root = func() ([32]byte, error) { return eth2util.SlotHashRoot(sel.Slot) }
 		s.setSig = func(x eth2p0.BLSSignature) { sel.SelectionProof = x }
 		s.getSig = func() eth2p0.BLSSignature { return sel.SelectionProof }
@@ -170,8 +169,8 @@ func (w *world) newSubject(kind, ver string, claimed *valKeys, vidx eth2p0.Valid
 	case "aggregate", "aggregate_legacy":
 		return w.newAggregate(kind, ver, claimed, vidx, badInner, own)
 	case "syncmsg":
-		m := &altair.SyncCommitteeMessage{Slot: w.slot, BeaconBlockRoot: testutil.RandomRoot(), ValidatorIndex: vidx}
-		s := &subject{dom: signing.DomainSyncCommittee, epoch: nowEpoch, vc: m}
+		m := &altair.SyncCommitteeMessage{Slot: w.lay.slot, BeaconBlockRoot: testutil.RandomRoot(), ValidatorIndex: vidx}
+		s := &subject{times: map[string]eth2p0.Epoch{"slot": w.slotEpoch()}, vc: m}
 		s.root = func() ([32]byte, error) { return m.BeaconBlockRoot, nil }
 		s.setSig = func(x eth2p0.BLSSignature) { m.Signature = x }
 		s.getSig = func() eth2p0.BLSSignature { return m.Signature }
@@ -185,8 +184,8 @@ func (w *world) newSubject(kind, ver string, claimed *valKeys, vidx eth2p0.Valid
 		s.parsig = func(idx int) (core.ParSignedData, error) { return core.NewPartialSignedSyncMessage(m, idx), nil }
 		return s, nil
 	case "scselection":
-		sel := &eth2v1.SyncCommitteeSelection{ValidatorIndex: vidx, Slot: w.slot, SubcommitteeIndex: subcommittee}
-		s := &subject{dom: signing.DomainSyncCommitteeSelectionProof, epoch: nowEpoch, vc: sel}
+		sel := &eth2v1.SyncCommitteeSelection{ValidatorIndex: vidx, Slot: w.lay.slot, SubcommitteeIndex: subcommittee}
+		s := &subject{times: map[string]eth2p0.Epoch{"slot": w.slotEpoch()}, vc: sel}
 		s.root = func() ([32]byte, error) {
 			return (&altair.SyncAggregatorSelectionData{Slot: sel.Slot, SubcommitteeIndex: uint64(sel.SubcommitteeIndex)}).HashTreeRoot()
 		}
@@ -210,9 +209,9 @@ func (w *world) newSubject(kind, ver string, claimed *valKeys, vidx eth2p0.Valid
 	case "contribution":
 		con := &altair.SignedContributionAndProof{Message: &altair.ContributionAndProof{AggregatorIndex: vidx,
 			Contribution: testutil.RandomSyncCommitteeContribution()}}
-		con.Message.Contribution.Slot = w.slot
+		con.Message.Contribution.Slot = w.lay.slot
 		con.Message.Contribution.SubcommitteeIndex = subcommittee
-		selRoot, err := (&altair.SyncAggregatorSelectionData{Slot: w.slot, SubcommitteeIndex: subcommittee}).HashTreeRoot()
+		selRoot, err := (&altair.SyncAggregatorSelectionData{Slot: w.lay.slot, SubcommitteeIndex: subcommittee}).HashTreeRoot()
 		if err != nil {
 			return nil, err
 		}
@@ -220,7 +219,7 @@ func (w *world) newSubject(kind, ver string, claimed *valKeys, vidx eth2p0.Valid
 		if err != nil {
 			return nil, err
 		}
-		s := &subject{dom: signing.DomainContributionAndProof, epoch: nowEpoch, vc: con}
+		s := &subject{times: map[string]eth2p0.Epoch{"slot": w.slotEpoch()}, vc: con}
 		s.root = con.Message.HashTreeRoot
 		s.setSig = func(x eth2p0.BLSSignature) { con.Signature = x }
 		s.getSig = func() eth2p0.BLSSignature { return con.Signature }
@@ -295,7 +294,7 @@ func (w *world) newAttestation(ver string, claimed *valKeys, vidx eth2p0.Validat
 		data, sigp = a.Data, &a.Signature
 		reflect.ValueOf(att).Elem().FieldByName(verField[ver]).Set(reflect.ValueOf(a))
 	}
-	s := &subject{dom: signing.DomainBeaconAttester, epoch: data.Target.Epoch, vc: att}
+	s := &subject{times: map[string]eth2p0.Epoch{"slot": w.slotEpoch(), "target": data.Target.Epoch}, vc: att}
 	s.root = data.HashTreeRoot
 	s.setSig = func(x eth2p0.BLSSignature) { *sigp = x }
 	s.getSig = func() eth2p0.BLSSignature { return *sigp }
@@ -321,7 +320,7 @@ func (w *world) newAttestation(ver string, claimed *valKeys, vidx eth2p0.Validat
 }
 
 func (w *world) newAggregate(kind, ver string, claimed *valKeys, vidx eth2p0.ValidatorIndex, badInner bool, own int) (*subject, error) {
-	slotRoot, err := eth2util.SlotHashRoot(w.slot)
+	slotRoot, err := eth2util.SlotHashRoot(w.lay.slot)
 	if err != nil {
 		return nil, err
 	}
@@ -329,7 +328,7 @@ func (w *world) newAggregate(kind, ver string, claimed *valKeys, vidx eth2p0.Val
 	if err != nil {
 		return nil, err
 	}
-	s := &subject{dom: signing.DomainAggregateAndProof, epoch: nowEpoch}
+	s := &subject{times: map[string]eth2p0.Epoch{"slot": w.slotEpoch(), "target": w.lay.tgt}}
 	var (
 		data   *eth2p0.AttestationData
 		aggIdx *eth2p0.ValidatorIndex
@@ -432,7 +431,7 @@ func (w *world) newProposal(kind, ver string, vidx eth2p0.ValidatorIndex) (*eth2
 		}
 	}
 	blk := blockOf(p)
-	blk.FieldByName("Slot").SetUint(uint64(w.slot))
+	blk.FieldByName("Slot").SetUint(uint64(w.lay.slot))
 	blk.FieldByName("ProposerIndex").SetUint(uint64(vidx))
 	return p, nil
 }
@@ -456,7 +455,7 @@ func (w *world) newSignedProposal(kind, ver string, vidx eth2p0.ValidatorIndex) 
 		return nil, err
 	}
 	var sigp *eth2p0.BLSSignature
-	s := &subject{dom: signing.DomainBeaconProposer, epoch: nowEpoch, unsigned: p}
+	s := &subject{times: map[string]eth2p0.Epoch{"slot": w.slotEpoch()}, unsigned: p}
 	s.root = func() ([32]byte, error) { r, err := p.Root(); return r, err }
 	if kind == "blinded" {
 		sb := &eth2api.VersionedSignedBlindedProposal{Version: p.Version}
